@@ -72,6 +72,9 @@ class Terms:
                     if rr and dk == 'Var' and d.get('isref') and n['d'] in self.ref_inits():
                         return self.t(self.ref_inits()[n['d']], rr, depth + 1)
                     return ('var', n['d'])
+                q = d.get('qname', '')
+                if q.startswith('std::integral_constant<bool, ') and q.endswith('>::value'):
+                    return ('bool', 'true' in q)
                 return ('global', d['tname'])
             if dk in ('Function', 'CXXMethod'):
                 return ('fn', d['tname'])
